@@ -7,6 +7,8 @@ from vlib import Verdict, run_tlc, extract_cases, write_ndjson, run_harness, loa
 
 SPEC = os.path.join(vlib.SPEC, "misc")
 TABLE = {
+    "C31": dict(module="PathFs", cfg=None, cmd="pathfs-replay", level="model_checking",
+                rule="case = request path (absolute or relative, up to 3 (thorough 4) segments over 18 names: files, directories, '.', '..', 7 symlinks in and out of the work directory, a sibling directory whose name extends the work directory's name, a missing name); every request; non-trivial = the path exists"),
     "C40": dict(module="ValueEq", cfg="ValueEq.cfg", cmd="value-eq", level="model_checking",
                 rule="case = ordered triple of value shapes (34 shapes incl. NaN with two payloads, -0.0, permuted and nested maps); all 39 304 triples; non-trivial = first two are distinct shapes that compare equal"),
     "C42": dict(module="ForExpand", cfg="ForExpand.cfg", cmd="for-expand", level="model_checking",
@@ -27,13 +29,19 @@ def run(prop, replay=None):
     v.exhaustive = True
     w = workdir("misc_" + prop)
     cfg = t["cfg"]
+    if prop == "C31":
+        global SPEC
+        cfg = "_pf.cfg"
+        with open(os.path.join(vlib.SPEC, "pathfs", cfg), "w") as f:
+            f.write("CONSTANT MaxSegs = %d\nINIT Init\nNEXT Next\nINVARIANT ModelSane\nINVARIANT Emit\nCHECK_DEADLOCK FALSE\n" % (3 if quick else 4))
     if prop == "C46":
         cfg = "_ef.cfg"
         with open(os.path.join(SPEC, cfg), "w") as f:
             f.write("CONSTANT MaxLines = %d\nINIT Init\nNEXT Next\nINVARIANT Emit\nCHECK_DEADLOCK FALSE\n" % (3 if quick else 4))
-    r = run_tlc(SPEC, t["module"], cfg, "misc_" + prop, workers=8 if quick else 14, timeout=3000)
-    if prop == "C46":
-        os.remove(os.path.join(SPEC, cfg))
+    spec = os.path.join(vlib.SPEC, "pathfs") if prop == "C31" else SPEC
+    r = run_tlc(spec, t["module"], cfg, "misc_" + prop, workers=8 if quick else 14, timeout=3000)
+    if prop in ("C46", "C31"):
+        os.remove(os.path.join(spec, cfg))
     if r.error or r.violated:
         raise vlib.ToolError("%s: %s %s" % (t["module"], r.error, r.violated))
     cases = extract_cases(r.stdout)
@@ -47,4 +55,6 @@ def run(prop, replay=None):
     rep = load_report(rpath)
     v.add_report(rep)
     v.notes.append("%d cases executed on the real code; counters %s" % (rep["total"], rep["counters"]))
+    if prop == "C31" and rep["counters"].get("accepted", 0) == 0:
+        raise vlib.ToolError("validate_path accepted nothing: vacuous")
     return v.finish()
